@@ -38,6 +38,7 @@ func checkC07(c *Ctx, r *Report) {
 	escRule(c, r, "C07.ESC")
 	rawRule(c, r, "C07.RAW")
 	finiteRule(c, r, "C07.NUM")
+	sepRule(c, r, "C07.SEP", false)
 }
 
 func constStr(v ssa.Value) (string, bool) {
@@ -714,6 +715,8 @@ func checkC18(c *Ctx, r *Report) {
 	escRule(c, r, "C18.ESC")
 	rawRule(c, r, "C18.RAW")
 	c18Num(c, r)
+	sepRule(c, r, "C18.SEP", true)
+	sepRule(c, r, "C18.SEPJ", false)
 	ws := c.fn("writeString")
 	re := c.fn("(*parser).readEscaped")
 	rv := c.fn("(*parser).readValue")
